@@ -5,6 +5,7 @@ package p_timers
 
 import (
 	"fmt"
+	"math"
 	"runtime"
 	"strings"
 	"sync"
@@ -216,7 +217,19 @@ func run(c TCase, check string, info *TInfo) *vstat.Violation {
 				}
 			})
 		case "far":
-			r.call(time.Duration(op.D)*time.Second, 0, true)
+			d := time.Duration(op.D) * time.Second
+			switch op.N { // the "practically never" idioms
+			case 1:
+				d = time.Duration(math.MaxInt64)
+			case 2:
+				d = time.Duration(math.MaxInt64) - 24*time.Hour
+			case 3:
+				d = 1000 * time.Hour
+			}
+			if op.N > 0 {
+				info.class("far_future_beyond_years")
+			}
+			r.call(d, 0, true)
 		case "cancel":
 			pend := r.pendingView()
 			r.mu.Lock()
@@ -392,8 +405,8 @@ func (r *runner) verdict(idle time.Duration) *vstat.Violation {
 			f.fut.Cancel()
 		}
 	}
-	if r.check != "C13" || !hooksOn {
-		return nil
+	if r.check != "C13" || !hooksOn || idle > time.Second {
+		return nil // with the default idle timeout (30 s) the wind-down is not awaited
 	}
 	// wind-down: nothing is pending now, the package must reach zero background goroutines
 	r.info.WindDownChecked = true
@@ -523,6 +536,8 @@ func RunExitSqueeze(idle time.Duration) *vstat.Violation {
 		end := time.Unix(0, done.Load())
 		time.Sleep(time.Until(end.Add(idle / 2))) // a generous margin: the machine may be busy
 		var got atomic.Bool
+		old := runtime.GOMAXPROCS(1) // see RunPokeSqueeze
+		defer runtime.GOMAXPROCS(old)
 		withPoolLock(func() {
 			time.Sleep(time.Until(end.Add(idle + 8*time.Millisecond))) // the worker's idle timer fires meanwhile: it queues on the lock to take its decision
 			go timeout.Call(func() { got.Store(true) }, 0)
@@ -532,6 +547,45 @@ func RunExitSqueeze(idle time.Duration) *vstat.Violation {
 			if time.Since(t) > latenessBound {
 				return vstat.V("timers:never-started", "a Call that arrived right behind the last idle worker's decision to leave was not started within %v (pending=%d workers=%d goroutines=%d)", latenessBound, pending(), poolWorkers(), watcherGoroutines())
 			}
+		}
+		return nil
+	})
+}
+
+// RunPokeSqueeze forces "the only worker computes its sleep towards a distant deadline; a Call with a near deadline
+// arrives right behind that computation" through the package lock: the worker is first parked inside a callback the
+// harness owns, then released while the harness holds the lock, so that it queues for its next critical section with
+// the new Call queued right behind it. The near future must start within the bound (the poke must not be lost).
+func RunPokeSqueeze() *vstat.Violation {
+	return vstat.Guard("timers:panic", func() *vstat.Violation {
+		resetPool(10, 30*time.Second)
+		far := timeout.Call(func() {}, 600*time.Second)
+		defer far.Cancel()
+		gate, inCb := make(chan struct{}), make(chan struct{})
+		timeout.Call(func() { close(inCb); <-gate }, time.Millisecond)
+		select {
+		case <-inCb:
+		case <-time.After(latenessBound):
+			close(gate)
+			return vstat.V("timers:never-started", "a Call with a 1 ms delay on a fresh pool was not started within %v", latenessBound)
+		}
+		var fired atomic.Bool
+		t0 := time.Now()
+		// one P while the queue is arranged and let go: the FIFO hand-over of the lock then also hands over the
+		// processor, so the Call's critical section runs to its end before the worker executes its next instruction
+		old := runtime.GOMAXPROCS(1)
+		defer runtime.GOMAXPROCS(old)
+		withPoolLock(func() {
+			close(gate) // the worker leaves the callback and queues on the lock for its next decision
+			time.Sleep(2 * time.Millisecond)
+			go timeout.Call(func() { fired.Store(true) }, 10*time.Millisecond)
+			time.Sleep(3 * time.Millisecond)
+		})
+		for !fired.Load() {
+			if time.Since(t0) > latenessBound {
+				return vstat.V("timers:late", "a Call with a 10 ms delay that arrived right behind the only worker's decision to sleep towards a deadline 600 s away was not started within %v (pending=%d workers=%d): the wake-up was lost", latenessBound, pending(), poolWorkers())
+			}
+			time.Sleep(200 * time.Microsecond)
 		}
 		return nil
 	})
